@@ -85,7 +85,10 @@ theorem fport_recvAny (v : Pairing) (ca cb : Cfg) (f f' : Fwd) (hi : FPortInv v 
         exact fport_plain v f _ hi rfl rfl rfl rfl
       · obtain rfl := Option.some.inj h
         exact fport_plain v f _ hi (by simp only [hph]; rfl) rfl rfl rfl
-    · simp at h
+    · split at h
+      · obtain rfl := Option.some.inj h
+        exact fport_plain v f _ hi rfl rfl rfl rfl
+      · simp at h
   · simp at h
 
 theorem fport_recvChunk (v : Pairing) (ca cb : Cfg) (f f' : Fwd) (hi : FPortInv v f)
